@@ -1,4 +1,5 @@
 import SJ.Generated.Consts
+import SJ.Proofs.Stream
 /-
 C09 — ParseNDStream delivers the same documents however the reader fragments.
 -/
@@ -7,5 +8,30 @@ open SJ.Generated
 
 /-- the chunk buffer is `tmpSize` = 10 MiB and the pooled slices leave 1 KiB of head room -/
 theorem C09_tmp_size : ctmpSize = 10 * 1024 * 1024 := by decide
+
+open SJ.Stream in
+/-- **The chunker, for every fragmentation.** `reads` are the successive non-empty results of the underlying
+    `Read`, `fin` how the reader ends. The chunks handed to the parsers, concatenated, are a prefix of the stream —
+    the whole stream when the loop ends with EOF, which it does only if the reader did; every chunk but the last
+    ends in a line feed (so no document is cut); the loop reports failure only if the reader failed. -/
+theorem C09_chunks (reads : List (List UInt8)) (fin : Fin) :
+    (∃ tail, (run reads fin).1.flatten ++ tail = reads.flatten) ∧
+    ((run reads fin).2 = .eof → fin = .eof ∧ (run reads fin).1.flatten = reads.flatten) ∧
+    (∀ c ∈ (run reads fin).1.dropLast, c.getLast? = some 10) ∧
+    ((run reads fin).2 = .fail → fin = .fail) := run_spec reads fin
+
+open SJ.Stream in
+/-- `ReadBytes('\n')` by contract: returned bytes plus what is left are what was there; a found delimiter ends the
+    line; otherwise the reader is exhausted. -/
+theorem C09_read_line (fin : Fin) (fuel : Nat) (r : Rd) (h : r.pending.length < fuel) :
+    (readLine fin fuel r).1 ++ (readLine fin fuel r).2.1.rest = r.rest ∧
+    (readLine fin fuel r).2.1.pending.length ≤ r.pending.length ∧
+    ((readLine fin fuel r).2.2 = none → (readLine fin fuel r).1.getLast? = some 10) ∧
+    ((readLine fin fuel r).2.2 ≠ none → (readLine fin fuel r).2.2 = some fin ∧ (readLine fin fuel r).2.1.rest = []) :=
+  readLine_spec fin fuel r h
+
+open SJ.Stream in
+/-- non-vacuity: a stream cut in the middle of a line and in the middle of a document -/
+example : run [[123, 125, 10, 91], [49, 93], [10, 10, 123], [125]] .eof = ([[123, 125, 10, 91, 49, 93, 10], [10, 123, 125]], .eof) := by decide
 
 end SJ.Properties.C09
